@@ -181,13 +181,40 @@ class Desugarer:
         if isinstance(expr, ast.Lambda):
             return expr
         new = copy.copy(expr)
+        # children in evaluation order; operands evaluated *before* a hoisted call must be captured first, so that
+        # `a.x == a.prop` still reads a.x before the property runs
+        slots = []
         for fld, val in ast.iter_fields(expr):
             if isinstance(val, ast.expr):
-                setattr(new, fld, self.hoist(val, pre))
+                slots.append((fld, None, val))
             elif isinstance(val, list) and val and isinstance(val[0], ast.expr):
-                setattr(new, fld, [self.hoist(v, pre) for v in val])
+                for k, v in enumerate(val):
+                    slots.append((fld, k, v))
             elif isinstance(val, list) and val and isinstance(val[0], ast.keyword):
-                setattr(new, fld, [ast.keyword(arg=k.arg, value=self.hoist(k.value, pre)) for k in val])
+                for k, kw in enumerate(val):
+                    slots.append((fld, ("kw", k), kw.value))
+        impure_at = [k for k, (_, _, v) in enumerate(slots) if has_impure_call(v, self.spec_names) or self._has_impure_comp(v)]
+        last = impure_at[-1] if impure_at else -1
+        results = {}
+        for k, (fld, idx, v) in enumerate(slots):
+            hv = self.hoist(v, pre)
+            if k < last and not isinstance(hv, (ast.Constant, ast.Name, ast.Lambda)) and not isinstance(v, ast.Starred):
+                t = self.tmp()
+                pre.append(self._assign(t, hv, v))
+                self.log.append(f"capture operand evaluated before a hoisted call at line {getattr(v, 'lineno', '?')} -> {t}")
+                hv = ast.copy_location(ast.Name(id=t, ctx=ast.Load()), v)
+            results[k] = hv
+        for k, (fld, idx, v) in enumerate(slots):
+            if idx is None:
+                setattr(new, fld, results[k])
+            elif isinstance(idx, tuple):
+                lst = list(getattr(new, fld))
+                lst[idx[1]] = ast.keyword(arg=lst[idx[1]].arg, value=results[k])
+                setattr(new, fld, lst)
+            else:
+                lst = list(getattr(new, fld))
+                lst[idx] = results[k]
+                setattr(new, fld, lst)
         return new
 
     def _hoist_arg(self, a, pre):
